@@ -61,7 +61,12 @@ def correspondence(run):
         arr = [float(v) for v in ice.index(np.array(zs))]
         sca = [float(ice.index(z)) for z in zs]
         if arr != sca:
-            run.note_broken("correspondence: index scalar/array disagree for %s at %s: %s vs %s" % (name, zs, sca, arr))
+            bad = [z for z, a_, s_ in zip(zs, arr, sca) if a_ != s_]
+            run.fail_input("index-scalar-array", {"ice": name, "params": [ice.n0, ice.k, ice.a, list(ice.valid_range),
+                                                                    ice._index_above, ice._index_below], "depths": bad},
+                           observed={"array": [a_ for a_, s_ in zip(arr, sca) if a_ != s_], "scalar": [s_ for a_, s_ in zip(arr, sca) if a_ != s_]},
+                           what="index(array) != index(scalar) at depth(s) %s" % bad[:3])
+            run.note_broken("correspondence: index scalar/array disagree for %s at %s" % (name, bad[:3]))
             return False
         reqs.append("index %s %s" % (it, fw.fl(zs))); expect.append(sca); descs.append((name, "index", tuple(zs)))
         reqs.append("gradient %s %s" % (it, fw.fl(zs)))
@@ -109,8 +114,9 @@ def correspondence(run):
 
 
 def shipped():
-    from pyrex.ice_model import AntarcticIce, ArasimIce, GreenlandIce
-    return [("antarctic", AntarcticIce()), ("arasim", ArasimIce()), ("greenland", GreenlandIce())]
+    from pyrex.ice_model import AntarcticIce, ArasimIce, GreenlandIce, UniformIce
+    return [("antarctic", AntarcticIce()), ("arasim", ArasimIce()), ("greenland", GreenlandIce()),
+            ("antarctic", UniformIce(1.6))]   # UniformIce shares AntarcticIce's attenuation
 
 
 def more_requests(run, reqs, expect, descs):
@@ -128,16 +134,24 @@ def more_requests(run, reqs, expect, descs):
         for rep in range(run.scale(3, 20)):
             zs = [float(z) for z in [lo, hi] + [run.rng.uniform(lo, hi) for _ in range(run.rng.randint(1, 5))]]
             fs = [1e9, float(np.nextafter(1e9, 0)), 75e6, 3e9] + [10 ** run.rng.uniform(6.5, 9.7) for _ in range(run.rng.randint(1, 4))]
+            if rep % 3 == 1:       # length-1 arrays keep their axis
+                zs = zs[-1:]
+            if rep % 3 == 2:
+                fs = fs[-1:]
             za, fa = np.array(zs), np.array(fs)
             mat = np.asarray(ice.attenuation_length(za, fa), dtype=float)
             # the documented shapes, each entry equal to the scalar evaluation
             if mat.shape != (len(zs), len(fs)):
                 ok = False; run.note_broken("correspondence: %s attenuation matrix shape %s" % (name, mat.shape))
+                run.fail_input("atten-shape", {"ice": name, "depths": zs, "freqs": fs}, observed=list(mat.shape),
+                               expected=[len(zs), len(fs)], what="attenuation_length(array, array) has shape %s" % (mat.shape,))
                 continue
             row = np.asarray(ice.attenuation_length(zs[0], fa), dtype=float)
             col = np.asarray(ice.attenuation_length(za, fs[0]), dtype=float)
             if row.shape != (len(fs),) or col.shape != (len(zs),):
                 ok = False; run.note_broken("correspondence: %s attenuation row/col shape %s %s" % (name, row.shape, col.shape))
+                run.fail_input("atten-shape", {"ice": name, "depths": zs, "freqs": fs}, observed=[list(row.shape), list(col.shape)],
+                               what="attenuation_length(scalar, array)/(array, scalar) shapes %s %s" % (row.shape, col.shape))
                 continue
             for i, z in enumerate(zs):
                 for j, f in enumerate(fs):
@@ -244,6 +258,30 @@ def search_atten(run):
                            what="attenuation length not positive and finite")
 
 
+def _ice_named(name, params=None):
+    from pyrex.ice_model import AntarcticIce, ArasimIce, GreenlandIce
+    if params and name == "random":
+        n0, k, a, rng_, ab, be = params
+        return AntarcticIce(n0=n0, k=k, a=a, valid_range=tuple(rng_), index_above=ab, index_below=be)
+    return {"antarctic": AntarcticIce, "arasim": ArasimIce, "greenland": GreenlandIce}[name]()
+
+
 def replay(run, data):
-    search(run, True)
-    search_atten(run)
+    inp, kind = data["input"], data["kind"]
+    if kind == "index-scalar-array":
+        ice = _ice_named(inp["ice"], inp.get("params"))
+        zs = inp["depths"]
+        arr = [float(v) for v in ice.index(np.array(zs))]
+        sca = [float(ice.index(z)) for z in zs]
+        if arr != sca:
+            run.fail_input(kind, inp, observed={"array": arr, "scalar": sca}, what="index(array) != index(scalar)")
+    elif kind == "atten-shape":
+        ice = _ice_named(inp["ice"])
+        za, fa = np.array(inp["depths"]), np.array(inp["freqs"])
+        shp = [np.shape(ice.attenuation_length(za, fa)), np.shape(ice.attenuation_length(za[0], fa)),
+               np.shape(ice.attenuation_length(za, fa[0]))]
+        if shp != [(len(za), len(fa)), (len(fa),), (len(za),)]:
+            run.fail_input(kind, inp, observed=[list(x) for x in shp], what="attenuation_length shapes %s" % shp)
+    else:
+        search(run, True)
+        search_atten(run)
